@@ -513,6 +513,7 @@ class ImplSpec:
         self.ret = {}
         self.assumes = {}
         self.only = None
+        self.header_rewrites = []
 
 
 def apply_contract(sig, clauses, ret="r"):
@@ -710,6 +711,12 @@ def extract_impl(path, header_lit, macro, args, handle, spec, stats, canary):
         if not rx.search(header):
             raise ExtractError("@@dropwhere no longer matches: %s" % dw)
         header = rx.sub("", header, count=1)
+    for (a, b) in spec.header_rewrites:
+        rx = re.compile(ws_insensitive_regex(a))
+        if len(rx.findall(header)) != 1:
+            raise ExtractError("@@rewrite_header no longer matches: %s" % a)
+        header = rx.sub(b.replace("\\", "\\\\"), header, count=1)
+        stats["R10"] += 1
     if handle:
         for a, b in HANDLE_TRAITS.items():
             header = re.sub(r"\b%s\b(?=\s*(<|for\b))" % a, b, header, count=1)
@@ -764,6 +771,7 @@ def extract_impl(path, header_lit, macro, args, handle, spec, stats, canary):
             for p in pm:
                 sig = re.sub(r"([(,]\s*)mut\s+" + p + r"(\s*:)", r"\1" + p + r"\2", sig)
                 b = "\n    let mut %s = %s;" % (p, p) + b
+            sig, b = normalize_params(sig, b, stats)
             b = "\n    let mut self_ = self_;" + b if "&mut" not in sig.split(")")[0] else b
             wh = ("\nwhere " + w2) if w2 else ""
             if "->" in sig and re.search(r"\bwhere\b", sig):
@@ -805,6 +813,7 @@ use vstd::prelude::*;
 use std::collections::VecDeque;
 use std::collections::HashSet;
 use std::hash::Hash;
+use std::marker::PhantomData;
 verus! {
 """
 FILE_TAIL = """
@@ -842,6 +851,20 @@ def generate(template_path, variant, canary=False):
     stats = dict(verbatim_lines=0, added_lines=0, R1=0, R2=0, R4=0, R7=0, R10=0, declared_rewrites=0,
                  silent_obligations=0, trusted_fns=0, assumes=0, R6=0, sources=[])
     raw = open(template_path).read()
+
+    def splice_includes(txt, depth=0):
+        out_ = []
+        for ln in txt.split("\n"):
+            if ln.startswith("@@include "):
+                inc = os.path.join(VERIF, "contracts", ln.split()[1])
+                if depth > 4:
+                    raise ExtractError("include depth")
+                out_.append(splice_includes(open(inc).read(), depth + 1))
+            else:
+                out_.append(ln)
+        return "\n".join(out_)
+
+    raw = splice_includes(raw)
     for k, v in variant.items():
         raw = raw.replace("${%s}" % k, v)
     lines = raw.split("\n")
@@ -870,16 +893,25 @@ def generate(template_path, variant, canary=False):
         if d == "@@variants":
             i += 1
             continue
-        if d == "@@include":
-            out.append(open(os.path.join(VERIF, "contracts", toks[1])).read())
-            i += 1
-            continue
         if d in ("@@struct", "@@enum"):
             kv, rest = parse_kv(toks[1:])
             path, name = rest[0], rest[1]
             args = kv["args"].split(";") if "args" in kv else None
             out.append(extract_struct(path, name, d[2:], kv.get("macro"), args, stats))
             stats["sources"].append("%s %s::%s" % (d[2:], path, name))
+            i += 1
+            continue
+        if d == "@@type":
+            kv, rest = parse_kv(toks[1:])
+            path, name = rest[0], rest[1]
+            text_ = get_text(path, kv.get("macro"), kv["args"].split(";") if "args" in kv else None)
+            ms = list(re.finditer(r"(?:pub(?:\([^)]*\))?\s+)?type\s+%s\b[^;]*;" % re.escape(name), text_))
+            if len(ms) != 1:
+                raise ExtractError("type %s: %d matches in %s" % (name, len(ms), path))
+            item = re.sub(r"^(pub(\([^)]*\))?\s+)?type", "pub type", ms[0].group(0))
+            out.append(item)
+            stats["verbatim_lines"] += item.count("\n") + 1
+            stats["sources"].append("type %s::%s" % (path, name))
             i += 1
             continue
         if d == "@@impl":
@@ -940,6 +972,10 @@ def generate(template_path, variant, canary=False):
                 elif t[0] == "@@subst":
                     a, b = l[len("@@subst"):].split("=>", 1)
                     spec.subst.append((a.strip(), b.strip()))
+                    i += 1
+                elif t[0] == "@@rewrite_header":
+                    a, b = l[len("@@rewrite_header"):].split("==>", 1)
+                    spec.header_rewrites.append((a.strip(), b.strip()))
                     i += 1
                 elif t[0] == "@@dropwhere":
                     spec.dropwhere.append(l[len("@@dropwhere"):].strip())
